@@ -130,6 +130,12 @@ pub fn plan(p: u32, tier: &str) -> Vec<Run> {
         x.edit_bound = Some(2);
         x
     };
+    // longer chains of evaluations where faults are restricted
+    let deep3 = |name: &str, depth: usize, faults: Vec<bool>| {
+        let mut x = s(name, depth, m);
+        x.faults = faults;
+        x
+    };
     let eph_shapes = ["late-requirement", "E-E-O+A", "E-E-E-O+A", "E-E-O+A-mid", "E-O-E-O"];
     match p {
         1 => {
@@ -144,6 +150,11 @@ pub fn plan(p: u32, tier: &str) -> Vec<Run> {
             add(ig, families::slots_ignore(3));
             add(rename("rename-prod", Conv::Parts, Cmp::Prod), families::rename_opts(true, Kind::O, false));
             add(rename("rename-test", Conv::JobIds, Cmp::Plain), families::rename_opts(false, Kind::O, false));
+            add(deep3("S3D4-ff", 4, vec![false; 4]), families::slots(3));
+            add(deep3("S3D3-f010", 3, vec![false, true, false]), families::slots(3));
+            let mut d43 = deep3("S4D3-k1-ff", 3, vec![false; 3]);
+            d43.edit_bound = Some(1);
+            add(d43, families::slots(4));
             if thorough {
                 // 4 slots: build, one edit with every fault, then the resume / no-op evaluation
                 let mut f4 = s("S4D2-k1-ff+follow", 2, m);
@@ -176,6 +187,8 @@ pub fn plan(p: u32, tier: &str) -> Vec<Run> {
             add(s3(false), families::slots(3));
             add(s4(false), families::slots(4));
             add(s4d2ff(), families::slots(4));
+            add(deep3("S3D4-ff", 4, vec![false; 4]), families::slots(3));
+            add(deep3("S3D3-f010", 3, vec![false, true, false]), families::slots(3));
             add(late("late2x", true), families::late_gadget(2, true));
             add(late("latepair", true), families::late_pair());
             add(late("bigshapes", true), families::big_shapes());
@@ -215,6 +228,19 @@ pub fn plan(p: u32, tier: &str) -> Vec<Run> {
             add(rename("rename-test", Conv::JobIds, Cmp::Plain), families::rename_opts(false, Kind::O, false));
             add(noise("S3D2-noise", 2, false, false), families::slots(3));
             add(noise("S3D3-noise-E-consumers", 3, false, false), slots_matching(3, &["EOO", "EEO", "AEO"]));
+            // comparisons that depend on the direction of the question and on the job ids it is asked for
+            let mut mono = noise("S3D2-mono+follow", 2, true, false);
+            mono.cmp = Cmp::Mono;
+            add(mono, families::slots(3));
+            let mut pr = noise("S3D2-prod+follow", 2, true, false);
+            pr.cmp = Cmp::Prod;
+            pr.conv = Conv::Parts;
+            add(pr, families::slots(3));
+            add(deep3("S3D4-ff", 4, vec![false; 4]), families::slots(3));
+            add(deep3("S3D3-f010", 3, vec![false, true, false]), families::slots(3));
+            let mut d43 = deep3("S4D3-k1-ff", 3, vec![false; 3]);
+            d43.edit_bound = Some(1);
+            add(d43, families::slots(4));
             if p == 4 {
                 let mut ig = s("S3D2-ignore", 2, m);
                 ig.faults = vec![true, false];
@@ -285,6 +311,8 @@ pub fn plan(p: u32, tier: &str) -> Vec<Run> {
             add(s3(true), families::slots(3));
             add(s4(false), families::slots(4));
             add(s4d2ff(), families::slots(4));
+            add(deep3("S3D4-ff", 4, vec![false; 4]), families::slots(3));
+            add(deep3("S3D3-f010", 3, vec![false, true, false]), families::slots(3));
             add(late("late2x", true), families::late_gadget(2, true));
             add(late("latepair", true), families::late_pair());
             add(late("bigshapes", true), families::big_shapes());
@@ -403,6 +431,8 @@ pub fn plan(p: u32, tier: &str) -> Vec<Run> {
             add(s3(true), families::slots(3));
             add(s4(false), families::slots(4));
             add(s4d2ff(), families::slots(4));
+            add(deep3("S3D4-ff", 4, vec![false; 4]), families::slots(3));
+            add(deep3("S3D3-f010", 3, vec![false, true, false]), families::slots(3));
             add(rename("rename-prod", Conv::Parts, Cmp::Prod), families::rename_opts(false, Kind::O, false));
             add(noise("S3D2-noise", 2, false, false), families::slots(3));
             if thorough {
@@ -429,6 +459,13 @@ pub fn plan(p: u32, tier: &str) -> Vec<Run> {
             add(s3(true), families::slots(3));
             add(s4(true), families::slots(4));
             add(noise("S3D2-noise+follow", 2, true, false), families::slots(3));
+            let mut mono = noise("S3D2-mono+follow", 2, true, false);
+            mono.cmp = Cmp::Mono;
+            add(mono, families::slots(3));
+            let mut pr = noise("S3D2-prod+follow", 2, true, false);
+            pr.cmp = Cmp::Prod;
+            pr.conv = Conv::Parts;
+            add(pr, families::slots(3));
             // a consumer validated through the renamed-upstream fallback must still be up to date afterwards
             let mut rn = rename("rename-prod+follow", Conv::Parts, Cmp::Prod);
             rn.follow = true;
@@ -596,6 +633,8 @@ pub fn plan(p: u32, tier: &str) -> Vec<Run> {
             add(s3(false), families::slots(3));
             add(s4(false), families::slots(4));
             add(s4d2ff(), families::slots(4));
+            add(deep3("S3D4-ff", 4, vec![false; 4]), families::slots(3));
+            add(deep3("S3D3-f010", 3, vec![false, true, false]), families::slots(3));
             add(rename("rename-prod", Conv::Parts, Cmp::Prod), families::rename_opts(true, Kind::O, false));
             add(rename("rename-test", Conv::JobIds, Cmp::Plain), families::rename_opts(true, Kind::O, false));
             if thorough {
@@ -909,6 +948,10 @@ pub fn cmd_run(args: &[String]) -> i32 {
             "prod" => {
                 spec.cmp = Cmp::Prod;
                 spec.conv = Conv::Parts;
+            }
+            "mono" => {
+                spec.noise = true;
+                spec.cmp = Cmp::Mono;
             }
             "twin" => spec.twin = true,
             "misuse" => spec.misuse = true,
